@@ -728,6 +728,11 @@ class SVG:
         defs = etree.Element(f"{{{svgns()}}}defs", nsmap=self.svg_root.nsmap)
         self.svg_root.insert(0, defs)
 
+        # Inline templates before any gradient is rewritten: a gradient must inherit
+        # what its template says, not the template's already-rewritten attributes
+        for gradient_el in self._select_gradients():
+            self._apply_gradient_template(gradient_el)
+
         for context in to_process:
             if "clipPath" in context.path:
                 _safe_remove(context.element)
